@@ -151,6 +151,10 @@ class Codec:
         valid_idx = rawmsg.find(b"8=FIX.")
         if valid_idx == -1:
             assert silent, "no fix header"
+            # keep a trailing part of the buffer that may be the beginning of a frame
+            for keep in range(5, 0, -1):
+                if rawmsg.endswith(b"8=FIX."[:keep]):
+                    return None, len(rawmsg) - keep, None
             return None, len(rawmsg), None
 
         parsed_length = valid_idx
@@ -163,6 +167,13 @@ class Codec:
             next_msg += 5
         else:
             next_msg = len(msg)
+
+        # frame ends with its CheckSum(10) field, whatever follows it in the buffer
+        cksum_idx = msg.find(self.SOH + "10=")
+        if cksum_idx != -1:
+            cksum_end = msg.find(self.SOH, cksum_idx + 1)
+            if cksum_end != -1:
+                next_msg = cksum_end + 1
 
         encoded_msg = rawmsg[valid_idx : next_msg + valid_idx]
 
@@ -206,7 +217,7 @@ class Codec:
             msg_length += body_length
 
         # message looks incomplete
-        if msg_length > len(rawmsg):
+        if msg_length > len(rawmsg) - valid_idx:
             assert silent, "incomplete message"
             return (None, parsed_length, None)
 
